@@ -403,6 +403,17 @@ template <class A, class B, class C> struct G3
     typedef std::tuple<A, B, C> as_tuple;
 };
 
+// a user type usable as a std::map key: operator< is the usual std::tie comparison of the fields
+struct UK
+{
+    int16_t a = 0;
+    std::string s;
+    template <class R> void reflect(R &r) { r &a; r &s; }
+    auto tied() { return std::tie(a, s); }
+    typedef std::tuple<int16_t, std::string> as_tuple;
+    friend bool operator<(const UK &x, const UK &y) { return std::tie(x.a, x.s) < std::tie(y.a, y.s); }
+};
+
 template <class T> struct conv<T, std::void_t<typename T::as_tuple>>
 {
     typedef typename T::as_tuple Tu;
@@ -432,6 +443,9 @@ struct stack_iface
     // empty desc list = not available
     virtual bytes encode_api(const std::string &desc, const DV &v) = 0;
     virtual DV decode_api(const std::string &desc, const bytes &in) = 0;
+    // the value after a trip through the C++ object (pure STL, no igris code): a std::map<K,V> built by
+    // insert() from the entries in the given order and iterated - std::less<K> is the oracle for the key order
+    virtual DV canon(const std::string &desc, const DV &v) { (void)desc; return v; }
 };
 stack_iface &stack_a();
 stack_iface &stack_s();
@@ -448,7 +462,7 @@ struct cap_out
     DV val;
     size_t consumed = 0;
 };
-cap_out a_capped(char kind, size_t cap, const std::string &payload, const std::string &desc, const DV &v, const bytes &rest);
+cap_out a_capped(char kind, size_t cap, const std::string &payload, const std::string &desc, const DV &v, const bytes &rest, size_t trunc = (size_t)-1);
 // binary_buffer_writer over an exactly sized buffer (size = what binary_string_writer produced)
 bytes a_binwriter(const std::string &desc, const DV &v, size_t size);
 bool a_binwriter_has(const std::string &desc);
@@ -471,4 +485,5 @@ template <class Writer, class Reader> struct type_h
     virtual DV dec(Reader &) = 0;
     virtual bytes enc_api(const DV &) = 0;
     virtual DV dec_api(const bytes &) = 0;
+    virtual DV canon(const DV &d) { return d; }
 };
